@@ -1,7 +1,9 @@
 (* The single entry point evaluated by the extracted driver and by vm_compute. *)
 From ASV Require Import Base.
 From ASV.C01 Require Model.
+From ASV.C03 Require Model.
 From ASV.C04 Require Model.
+From ASV.C07 Require Model.
 From ASV.C14 Require Model.
 From ASV.C15 Require Model.
 
@@ -10,7 +12,9 @@ Definition run (l : list Z) : list Z :=
   | p :: fn :: payload =>
     match p with
     | 1 => C01.Model.run_C01 fn payload
+    | 3 => C03.Model.run_C03 fn payload
     | 4 => C04.Model.run_C04 fn payload
+    | 7 => C07.Model.run_C07 fn payload
     | 14 => C14.Model.run_C14 fn payload
     | 15 => C15.Model.run_C15 fn payload
     | _ => bad_input
